@@ -42,7 +42,16 @@ class Pattern(Leaf):
         pat = self.pattern or ""
         # multiline patterns are OK
         if '\n' in pat:
-            pat = trim(pat)
+            if self._regex.flags & re.VERBOSE:
+                pat = trim(pat)
+            else:
+                # NOTE without (?x) a line break is matched, and so would be
+                #   the indentation a rule gives to the lines after it
+                pat = re.sub(
+                    r'(\\*)\n',
+                    lambda m: m[1][: len(m[1]) - len(m[1]) % 2] + '\\n',
+                    pat,
+                )
         return regexlit(pat)
 
     @cached_property
